@@ -473,26 +473,52 @@ static void fullTableCase(Rng &R) {
   }
 }
 
-// product information stories: a device with known product information P moves (or not), re-sends P byte-identically
-// (or a different first message), then sends a different Q - only the FIRST message after the claim may be reported.
-// Getter query and `upd` after every message.
-static std::vector<unsigned char> prodPayload(Rng &R, bool na) {
-  tN2kMsg m; std::string a = randText(R, 32, false), b = randText(R, 32, false), c = randText(R, 32, false), d = randText(R, 32, false);
-  SetN2kPGN126996(m, na ? 0xffff : 2101, (unsigned)R.below(60000), a.c_str(), b.c_str(), c.c_str(), d.c_str(), na ? 0xff : 1, na ? 0xff : (unsigned char)(1 + R.below(9)));
+struct ProdFields { unsigned ver, code, cert, load; std::string s[4]; };
+static std::vector<unsigned char> prodBytes(const ProdFields &f) {
+  tN2kMsg m; SetN2kPGN126996(m, f.ver, f.code, f.s[0].c_str(), f.s[1].c_str(), f.s[2].c_str(), f.s[3].c_str(), (unsigned char)f.cert, (unsigned char)f.load);
   return std::vector<unsigned char>(m.Data, m.Data + m.DataLen);
 }
-static void prodStory(Rng &R, int variant) {
+static std::string text2to31(Rng &R) { std::string t; int n = 2 + (int)R.below(30); for (int i = 0; i < n; i++) t += (char)(0x21 + R.below(0x5e)); return t; }
+static ProdFields prodFields(Rng &R, bool na) {
+  ProdFields f; f.ver = na ? 0xffff : 2101; f.code = (unsigned)R.below(60000); f.cert = na ? 0xff : 1; f.load = na ? 0xff : 1 + (unsigned)R.below(9);
+  for (auto &t : f.s) t = text2to31(R);
+  return f;
+}
+// first: 0 = P again byte-identically, 1 = a completely different record, 2..5 = only N2kVersion / product code / certification level /
+// load equivalency differs, 6+3k+{0,1,2} = only string k differs {in a middle character, in its last character, in its length}
+static const int PROD_FIRST_KINDS = 18;
+static ProdFields firstAfter(Rng &R, const ProdFields &P, int first) {
+  ProdFields f = P;
+  if (first == 0) return f;
+  if (first == 1) return prodFields(R, false);
+  if (first == 2) { f.ver = P.ver == 2101 ? 1300 : 2101; return f; }
+  if (first == 3) { f.code = P.code + 1; return f; }
+  if (first == 4) { f.cert = P.cert == 1 ? 2 : 1; return f; }
+  if (first == 5) { f.load = P.load == 3 ? 4 : 3; return f; }
+  int k = (first - 6) / 3, how = (first - 6) % 3; std::string &t = f.s[k];
+  auto other = [](char c) { return (char)(c == 'x' ? 'y' : 'x'); };
+  if (how == 0) t[t.size() / 2 - (t.size() > 2 ? 0 : 1)] = other(t[t.size() / 2 - (t.size() > 2 ? 0 : 1)]);
+  else if (how == 1) t[t.size() - 1] = other(t[t.size() - 1]);
+  else { if (R.chance(1, 2)) t.pop_back(); else t += 'z'; }
+  return f;
+}
+// product information stories: a device with known product information P moves (or not), then sends as the FIRST message after
+// that: P byte-identically, a completely different record, or P with exactly one field changed (same unit after a firmware
+// update ...); then a different Q and P again - only the first message after the claim may be reported.
+// Getter query and `upd` after every message.
+static void prodStory(Rng &R, int move, int first) {
   exec("reset " + std::to_string(R.chance(1, 6) ? 0 : 1) + " " + std::to_string(g_now + 3000 + R.below(5000)));
   uint64_t A = (R.next() | 0x100) & 0x7fffffffffffffffULL, B = A + 0x100000000ULL;
   int s1 = (int)R.below(254), s2 = (s1 + 1 + (int)R.below(252)) % 254;
-  bool na = variant & 8;
-  std::vector<unsigned char> P = prodPayload(R, na), Q = prodPayload(R, false), Z = prodPayload(R, false);
+  bool na = R.chance(1, 4);
+  ProdFields Pf = prodFields(R, na);
+  std::vector<unsigned char> P = prodBytes(Pf), F = prodBytes(firstAfter(R, Pf, first)), Q = prodBytes(prodFields(R, false));
   auto look = [&](int s) { exec("bysrc " + std::to_string(s)); exec("byname " + name16(A)); exec("upd"); };
-  if (variant & 4) { exec("data " + std::to_string(s1) + " 127250"); exec("upd"); }     // reservation first
+  if (R.chance(1, 3)) { exec("data " + std::to_string(s1) + " 127250"); exec("upd"); }     // reservation first
   exec("claim " + std::to_string(s1) + " " + name16(A)); look(s1);
   exec(msgLineV(126996, s1, P)); look(s1);
   int s = s1;
-  switch (variant & 3) {
+  switch (move) {
     case 0: s = s2; exec("claim " + std::to_string(s2) + " " + name16(A)); look(s2); break;                 // address move
     case 1: break;                                                                                            // no move
     case 2: exec("claim " + std::to_string(s1) + " " + name16(A)); look(s1); break;                           // re-claim, same address
@@ -500,8 +526,8 @@ static void prodStory(Rng &R, int variant) {
             s = s2; exec("claim " + std::to_string(s2) + " " + name16(A)); look(s2); break;
   }
   if (R.chance(1, 3)) { exec("t 1500"); exec("data " + std::to_string(s) + " 129026"); exec("upd"); }
-  exec(msgLineV(126996, s, (variant & 16) ? Z : P)); look(s);      // first after the claim: identical re-send, or a different one
-  exec(msgLineV(126996, s, Q)); look(s);                           // must be ignored
+  exec(msgLineV(126996, s, F)); look(s);      // first after the claim
+  exec(msgLineV(126996, s, Q)); look(s);      // must be ignored
   exec(msgLineV(126996, s, P)); look(s);
   exec("count");
 }
@@ -530,9 +556,10 @@ int main(int argc, char **argv) {
   C.sample("exhaustive: all sequences of length " + std::to_string(C.thorough ? 4 : 3) + " over {claim 2 sources x NAMEs 0,A,B; data from 2 sources}");
   fullTableCase(R);
   C.sample("full table: 254 NAMEs on 254 addresses, then takeovers/moves with no free slot");
-  for (int rep = 0; rep < (C.thorough ? 8 : 2); rep++) for (int v = 0; v < 32; v++) prodStory(R, v);
-  C.sample("product information stories: known P, then {address move | nothing | re-claim | displaced and moved} x {P re-sent byte-identically | different first message} x "
-           "{with/without reservation} x {N/A numbers}, then a different Q and P again; bysrc/byname/upd after every message");
+  for (int rep = 0; rep < (C.thorough ? 6 : 1); rep++) for (int mv = 0; mv < 4; mv++) for (int f = 0; f < PROD_FIRST_KINDS; f++) prodStory(R, mv, f);
+  C.sample("product information stories: known P, then {address move | nothing | re-claim | displaced and moved} x first message after = {P byte-identically | a different record | "
+           "P with exactly one field changed: each number, each of the 4 strings in a middle character / the last character / the length}, then a different Q and P again; "
+           "bysrc/byname/upd after every message");
   int ncases = C.thorough ? 900 : 120;
   for (int i = 0; i < ncases; i++) randomCase(R, C.thorough ? 60 + (int)R.below(260) : 40 + (int)R.below(160));
   C.sample("random histories: 2..252 sources, 3..15 NAMEs incl. 0/all-ones/1, shared manufacturer codes; claims new/move/takeover/re-claim/short, 126996/126998/126464 "
